@@ -164,6 +164,10 @@ func c08Gen(runSeed uint64, tier string) *gen.Scenario {
 	sc := genEngineScenario(runSeed, tier, 0)
 	g := gen.New(runSeed ^ 0xc08)
 	sc.Requests = overlappingChecks(g, sc, 10+g.Intn(14))
+	if g.Chance(0.15) || gen.Forced("shortcircuit") {
+		// directed shape: a quick union branch short-circuits a slow sibling sub-problem
+		sc.Model, sc.Tuples, sc.Requests = g.ShortCircuit()
+	}
 	for i := range sc.Requests {
 		if g.Chance(0.1) {
 			sc.Requests[i].Conc = 2 + g.Intn(2)
@@ -175,6 +179,7 @@ func c08Gen(runSeed uint64, tier string) *gen.Scenario {
 	sc.Knobs["drop_pm"] = []int64{0, 0, 100}[g.Intn(3)]
 	sc.Knobs["ttl_ms"] = []int64{60000, 60000, 2}[g.Intn(3)]
 	sc.Knobs["mode"] = int64(g.Intn(3)) // 0 = v1 command level, 1 = v1 server (check, batch, listobjects), 2 = v2 server
+	sc.Knobs["iter_latency"] = int64(g.Intn(2))
 	sc.Knobs["faults"] = 0
 	if g.Chance(0.3) {
 		sc.Knobs["early_faults"] = 1 // storage errors only during the first third of the sequence
@@ -190,6 +195,9 @@ func c08Exec(t *testing.T, sc *gen.Scenario, trace bool) *harness.Outcome {
 		cache.DropRate = float64(sc.Knob("drop_pm", 0)) / 1000
 		ttl := time.Duration(sc.Knob("ttl_ms", 60000)) * time.Millisecond
 		mode := sc.Knob("mode", 0)
+		// every Next of a storage iterator takes (virtual) time: a sibling's answer can then arrive while a
+		// strategy is in the middle of consuming rows, not only while it opens its reads
+		e.DS.SetIterLatency(sc.Knob("iter_latency", 0) == 1)
 		var cached, plain func(ctx context.Context, rq gen.Request) anyAns
 		switch mode {
 		case 0:
@@ -322,6 +330,10 @@ func c09Gen(runSeed uint64, tier string) *gen.Scenario {
 	sc := genEngineScenario(runSeed, tier, 0)
 	g := gen.New(runSeed ^ 0xc09)
 	sc.Requests = overlappingChecks(g, sc, 10+g.Intn(12))
+	if g.Chance(0.1) {
+		// directed shape: a quick union branch short-circuits a slow sibling sub-problem
+		sc.Model, sc.Tuples, sc.Requests = g.ShortCircuit()
+	}
 	for i := range sc.Requests {
 		switch g.Intn(10) {
 		case 0, 1:
